@@ -183,6 +183,37 @@ def _linear_extensions(r):
     return res
 
 
+def _snap(x):
+    """Everything observable about an argument (ballots in order, containers by value)."""
+    from votekit.ballot import Ballot
+    from votekit.pref_profile import PreferenceProfile
+
+    if isinstance(x, PreferenceProfile):
+        return ("P", tuple(_snap(b) for b in x.ballots), tuple(str(c) for c in (x.candidates or ())),
+                x.total_ballot_wt, x.num_ballots)
+    if isinstance(x, Ballot):
+        return ("B", tuple(tuple(sorted(map(str, s))) for s in (x.ranking or ())),
+                tuple(sorted((str(k), v) for k, v in (x.scores or {}).items())), x.weight,
+                tuple(sorted(map(str, x.voter_set or ()))), x.id)
+    if isinstance(x, (tuple, list)):
+        return tuple(_snap(y) for y in x)
+    return repr(x)
+
+
+def icall(out, fn, *args):
+    """E.call plus: an editing utility returns a new value and leaves its arguments as they were
+    (ballots and profiles are immutable values; a utility that edits its argument in place loses
+    or changes votes of the caller's profile)."""
+    before = [_snap(a) for a in args]
+    r = E.call(fn, *args)
+    after = [_snap(a) for a in args]
+    if before != after:
+        i = next(j for j in range(len(args)) if before[j] != after[j])
+        out.fail(getattr(fn, "__name__", "utility"), "argument_changed_in_place",
+                 f"argument {i} before {before[i]} after {after[i]}")
+    return r
+
+
 def check(case):
     import votekit.utils as U
     import votekit.cleaning as CL
@@ -224,7 +255,7 @@ def check(case):
             out.fail(name, "zero_weight_left", "zero-weight ballot although leave_zero_weight_ballots=False")
 
     # ---- remove_cand: profile ---------------------------------------------------------------
-    got, exc, _ = E.call(U.remove_cand, rem_arg, prof, condense, leave)
+    got, exc, _ = icall(out, U.remove_cand, rem_arg, prof, condense, leave)
     if exc is not None:
         out.fail("remove_cand_profile", type(exc).__name__, repr(exc))
     else:
@@ -236,7 +267,7 @@ def check(case):
             if tuple(got.candidates) != want_c:
                 out.fail("remove_cand_profile", "candidates", f"{got.candidates} != {want_c}")
     # ---- remove_cand: tuple -------------------------------------------------------------------
-    got, exc, _ = E.call(U.remove_cand, rem_arg, prof.ballots, condense, leave)
+    got, exc, _ = icall(out, U.remove_cand, rem_arg, prof.ballots, condense, leave)
     if exc is not None:
         out.fail("remove_cand_tuple", type(exc).__name__, repr(exc))
     elif not isinstance(got, tuple):
@@ -245,7 +276,7 @@ def check(case):
         judge("remove_cand_tuple", got, len(ballots))
     # ---- remove_cand: single ballot ---------------------------------------------------------
     sb = ballots[case["single"]]
-    got, exc, _ = E.call(U.remove_cand, rem_arg, C.mk_ballot(sb), condense, leave)
+    got, exc, _ = icall(out, U.remove_cand, rem_arg, C.mk_ballot(sb), condense, leave)
     if exc is not None:
         out.fail("remove_cand_ballot", type(exc).__name__, f"ballot {sb} removed={removed}: {exc!r}")
     elif not isinstance(got, Ballot):
@@ -262,7 +293,7 @@ def check(case):
 
     # ---- add_missing_cands ----------------------------------------------------------------------
     ranked = [b for b in ballots]
-    got, exc, _ = E.call(U.add_missing_cands, prof)
+    got, exc, _ = icall(out, U.add_missing_cands, prof)
     if exc is not None:
         out.fail("add_missing_cands", type(exc).__name__, repr(exc))
     else:
@@ -288,7 +319,7 @@ def check(case):
         exts = _linear_extensions(b["r"])
         denom = math.prod(math.factorial(len(p)) for p in b["r"])
         w = C.frac(b["w"]) / denom
-        got, exc, _ = E.call(U.expand_tied_ballot, C.mk_ballot({"r": b["r"], "w": b["w"]}))
+        got, exc, _ = icall(out, U.expand_tied_ballot, C.mk_ballot({"r": b["r"], "w": b["w"]}))
         if exc is not None:
             out.fail("expand_tied_ballot", type(exc).__name__, repr(exc))
             continue
@@ -298,7 +329,7 @@ def check(case):
             out.fail("expand_tied_ballot", "extensions", f"{b['r']} w={b['w']}: got {gk}, expected {ek}")
         for e in exts:
             em_all[_key(e)] = em_all.get(_key(e), Fraction(0)) + w
-    got, exc, _ = E.call(U.resolve_profile_ties, C.mk_profile([{"r": b["r"], "w": b["w"]} for b in ballots], cands))
+    got, exc, _ = icall(out, U.resolve_profile_ties, C.mk_profile([{"r": b["r"], "w": b["w"]} for b in ballots], cands))
     if exc is not None:
         out.fail("resolve_profile_ties", type(exc).__name__, repr(exc))
     else:
@@ -338,7 +369,7 @@ def check(case):
         return m
 
     if len(has_ranking) == len(lb):
-        got, exc, _ = E.call(CL.remove_noncands, lp, non)
+        got, exc, _ = icall(out, CL.remove_noncands, lp, non)
         if exc is not None:
             out.fail("remove_noncands", type(exc).__name__, repr(exc))
         else:
@@ -355,7 +386,7 @@ def check(case):
             for b in got.ballots:
                 if any(next(iter(p)) in non for p in b.ranking):
                     out.fail("remove_noncands", "removed_candidate_present", f"{b.ranking}")
-        got, exc, _ = E.call(CL.deduplicate_profiles, lp)
+        got, exc, _ = icall(out, CL.deduplicate_profiles, lp)
         if exc is not None:
             out.fail("deduplicate_profiles", type(exc).__name__, repr(exc))
         else:
@@ -378,7 +409,7 @@ def check(case):
             ("clean_profile_trunc", f_trunc, lambda r: r[:k_tr]),
             ("clean_profile_drop", f_drop, lambda r: [p for p in r if drop not in p]),
         ):
-            got, exc, _ = E.call(CL.clean_profile, lp, fn)
+            got, exc, _ = icall(out, CL.clean_profile, lp, fn)
             if exc is not None:
                 out.fail(nm, type(exc).__name__, repr(exc))
                 continue
@@ -405,7 +436,7 @@ def check(case):
         arg3 = rem3[0] if (case["as_str"] and len(rem3) == 1) else rem3
         for nm, obj in (("remove_cand_repeats_profile", C.mk_profile(lb3, toks3)),
                         ("remove_cand_repeats_tuple", C.mk_profile(lb3, toks3).ballots)):
-            got, exc, _ = E.call(U.remove_cand, arg3, obj, condense, False)
+            got, exc, _ = icall(out, U.remove_cand, arg3, obj, condense, False)
             if exc is not None:
                 out.fail(nm, type(exc).__name__, repr(exc))
                 continue
@@ -417,7 +448,7 @@ def check(case):
             if gm != exp3:
                 out.fail(nm, "weights_per_ranking", f"removed {rem3} from {[b['r'] for b in lb3]}: got {gm}, expected {exp3}")
         first = lb3[0]
-        got, exc, _ = E.call(U.remove_cand, arg3, C.mk_ballot(first), condense, False)
+        got, exc, _ = icall(out, U.remove_cand, arg3, C.mk_ballot(first), condense, False)
         r = [p for p in first["r"] if p[0] not in rem3]
         if exc is not None:
             out.fail("remove_cand_repeats_ballot", type(exc).__name__, repr(exc))
@@ -429,7 +460,7 @@ def check(case):
     if has_ranking and len(has_ranking) == len(lb):
         toks = sorted({("blank" if p[0] is None else p[0]) for b in lb for p in b["r"]}) + ["extra1", "extra2"][: case["trunc"] - 1]
         lb2 = [{"r": [[("blank" if p[0] is None else p[0])] for p in b["r"]], "w": b["w"]} for b in lb]
-        got, exc, _ = E.call(U.add_missing_cands, C.mk_profile(lb2, toks))
+        got, exc, _ = icall(out, U.add_missing_cands, C.mk_profile(lb2, toks))
         if exc is not None:
             out.fail("add_missing_cands_repeats", type(exc).__name__, repr(exc))
         else:
@@ -449,7 +480,7 @@ def check(case):
     has_blank = any(p[0] is None for b in lb for p in (b["r"] or []))
     for keep in (case["keep_candidates"] and not has_blank,):
         lp2 = C.mk_profile(lb, None)
-        got, exc, _ = E.call(CL.remove_empty_ballots, lp2, keep)
+        got, exc, _ = icall(out, CL.remove_empty_ballots, lp2, keep)
         if exc is not None:
             out.fail("remove_empty_ballots", type(exc).__name__, repr(exc))
         else:
@@ -463,7 +494,7 @@ def check(case):
     if has_ranking:
         r0 = has_ranking[0]["r"]
         same = [b for b in has_ranking if b["r"] == r0]
-        got, exc, _ = E.call(CL.merge_ballots, [C.mk_ballot(b) for b in same])
+        got, exc, _ = icall(out, CL.merge_ballots, [C.mk_ballot(b) for b in same])
         if exc is not None:
             out.fail("merge_ballots", type(exc).__name__, repr(exc))
         else:
